@@ -345,6 +345,13 @@ impl Polynomial<Cmplx> {
             // Polishing a root at (or next to) zero: g = p'/p overflows, the step is not
             // a number; x is already as close to the root as it can get
             if !( dx.real.is_finite() && dx.imag.is_finite() ) { return; }
+            // Never step farther than the geometric mean distance |p(x)/a_m|^(1/m) from x to
+            // the roots (the nearest root is at most that far away). Where p' is tiny, e.g. at
+            // the centre of a nearly symmetric root set, the raw Laguerre step is huge and from
+            // the far field the next step leads straight back: a 2-cycle that the fractional
+            // steps, always taken in the same phase, cannot break
+            let rho = f64::powf( b.abs() / a[m].abs(), 1.0 / ( m as f64 ) );
+            let dx = if dx.abs() > rho { dx * ( rho / dx.abs() ) } else { dx };
             let x1 = *x - dx;
             #[cfg(feature = "verif")]
             if *x == x1 { crate::verif::laguer( m, iter, 1 ); }
